@@ -333,8 +333,9 @@ fn case_strategy() -> impl Strategy<Value = Case> {
         any::<u16>(),                                      // pre-buffered amount selector
         any::<bool>(),                                     // no terminator at all (end of input)
         proptest::bool::weighted(0.15),                    // the source fails behind the data
+        prop_oneof![30 => Just(0usize), 1 => 1usize..=9],  // scan offset this far behind the end of the input
     )
-        .prop_map(|((ty, digits), plen, sign, zeros, term, tail, pre, at_end, fail_end)| {
+        .prop_map(|((ty, digits), plen, sign, zeros, term, tail, pre, at_end, fail_end, beyond)| {
             let mut data = Vec::new();
             for i in 0..plen {
                 data.push(b"x7-\n "[i % 5]);
@@ -351,6 +352,14 @@ fn case_strategy() -> impl Strategy<Value = Case> {
                 data.push(term);
                 data.extend_from_slice(&tail);
             }
+            let (data, off) = if beyond > 0 {
+                // nothing at the scan offset: it lies behind the last byte
+                let mut d = data;
+                d.truncate(off);
+                (d, off + beyond)
+            } else {
+                (data, off)
+            };
             let pre = (pre as usize * (data.len() + 9)) >> 16;
             Case { data, off, pre, ty, fail_end }
         })
